@@ -15,7 +15,8 @@ use std::sync::{Arc, Mutex};
 pub enum W {
     Counter { name_len: usize, labels: Vec<(usize, usize)>, value: u64, ts: bool },
     Gauge { name_len: usize, labels: Vec<(usize, usize)>, bits: u64, ts: bool },
-    Hist { name_len: usize, labels: Vec<(usize, usize)>, values: Vec<u64>, rate: u8, dist: bool },
+    /// `same_key`: written under the key of the previous Hist write (own values and sample rate)
+    Hist { name_len: usize, labels: Vec<(usize, usize)>, values: Vec<u64>, rate: u8, dist: bool, #[serde(default)] same_key: bool },
     Drain,
 }
 
@@ -101,7 +102,9 @@ impl Scenario for C09Writer {
                     4..=7 => {
                         let nv = *r.pick(&[0u64, 1, 2, 3, 7, 20, 64, 65, big]);
                         let nv = if nv > 100 && r.chance(700) { 30 } else { nv };
-                        W::Hist { name_len, labels: lab(r), values: (0..nv).map(|_| *r.pick(&FLOATS)).collect(), rate: r.below(4) as u8, dist: r.chance(500) }
+                        // rarely one flush cycle of well over 64 KiB (buffers may be trimmed after it)
+                        let nv = if r.chance(12) { 9000 } else { nv };
+                        W::Hist { name_len, labels: lab(r), values: (0..nv).map(|_| *r.pick(&FLOATS)).collect(), rate: r.below(4) as u8, dist: r.chance(500), same_key: r.chance(300) }
                     }
                     _ => W::Drain,
                 }
@@ -129,13 +132,28 @@ impl Scenario for C09Writer {
             };
             let mut ops = p.ops.clone();
             ops.push(W::Drain);
+            // effective key of every write: (name index, name length, labels)
+            let mut eff: Vec<(usize, usize, Vec<(usize, usize)>)> = vec![];
+            let mut last_hist: Option<(usize, usize, Vec<(usize, usize)>)> = None;
+            for (i, op) in ops.iter().enumerate() {
+                let e = match op {
+                    W::Counter { name_len, labels, .. } | W::Gauge { name_len, labels, .. } => (i, *name_len, labels.clone()),
+                    W::Hist { name_len, labels, same_key, .. } => {
+                        let e = match (&last_hist, same_key) {
+                            (Some(l), true) => l.clone(),
+                            _ => (i, *name_len, labels.clone()),
+                        };
+                        last_hist = Some(e.clone());
+                        e
+                    }
+                    W::Drain => (i, 0, vec![]),
+                };
+                eff.push(e);
+            }
             for (i, op) in ops.iter().enumerate() {
                 dsim::point("c09.op");
-                let (name_len, labels) = match op {
-                    W::Counter { name_len, labels, .. } | W::Gauge { name_len, labels, .. } | W::Hist { name_len, labels, .. } => (*name_len, labels.clone()),
-                    W::Drain => (0, vec![]),
-                };
-                let key = Key::from_parts(name_of(i, name_len), labels.iter().enumerate().map(|(j, l)| label_of(j, *l)).collect::<Vec<_>>());
+                let (name_idx, name_len, labels) = eff[i].clone();
+                let key = Key::from_parts(name_of(name_idx, name_len), labels.iter().enumerate().map(|(j, l)| label_of(j, *l)).collect::<Vec<_>>());
                 match op {
                     W::Counter { value, ts, .. } => {
                         let r = w.write_counter(&key, *value, if *ts { Some(1_700_000_000) } else { None }, prefix.as_deref(), &globals);
@@ -188,13 +206,10 @@ impl Scenario for C09Writer {
                             let mine = &payloads[cursor..cursor + written as usize];
                             cursor += written as usize;
                             let wop = &ops[wi];
-                            let (name_len, labels) = match wop {
-                                W::Counter { name_len, labels, .. } | W::Gauge { name_len, labels, .. } | W::Hist { name_len, labels, .. } => (*name_len, labels.clone()),
-                                W::Drain => unreachable!(),
-                            };
+                            let (name_idx, name_len, labels) = eff[wi].clone();
                             let want_name = match &prefix {
-                                Some(px) => format!("{}.{}", px, name_of(wi, name_len)),
-                                None => name_of(wi, name_len),
+                                Some(px) => format!("{}.{}", px, name_of(name_idx, name_len)),
+                                None => name_of(name_idx, name_len),
                             };
                             let mut want_tags: Vec<(String, Option<String>)> = vec![];
                             for l in globals.iter().cloned().chain(labels.iter().enumerate().map(|(j, l)| label_of(j, *l))) {
